@@ -90,9 +90,15 @@ func c10Body(env *simrt.Env) {
 		var err error
 		if kind == 3 {
 			if simrt.Draw(5) == 0 && !expectActive {
-				w.ss.sampleErr = fmt.Errorf("hardware is not sending data yet")
+				if simrt.Draw(2) == 0 {
+					w.ss.sampleErr = fmt.Errorf("hardware is not sending data yet")
+				} else {
+					// fails later in the start sequence, after channels and run state were prepared
+					w.ss.startRunErr = fmt.Errorf("driver refuses to start the run")
+					simrt.Hit("failed-start-in-StartRun")
+				}
 			}
-			failing := w.ss.sampleErr != nil
+			failing := w.ss.sampleErr != nil || w.ss.startRunErr != nil
 			if expectActive {
 				// the RPC layer refuses while a source is active; ask the source itself too
 				err = Start(w.ss, sc.queuedRequests, 4, 16)
